@@ -213,6 +213,30 @@ def _trace_vc(ctx, L):
         return err is not None and after != before, f"frame {vals['frame'].hex()} raised {err!r}; location table entries {len(before)} -> {len(after)}, changed={after != before}"
     ctx.witness(f"L{L}-trace-reach-table-update", I, z3.Or(*[pc for pc, _ in touched]) if touched else FALSE, vars={"frame": pkt})
     any_touch = z3.Or(*[pc for pc, name in touched]) if touched else FALSE
+    # frames sent by the station itself (own GN address as source: an echo re-broadcast by a neighbour) are ignored without trace
+    ht, hst = z3.LShR(pkt.bs[5], 4), pkt.bs[5] & 0x0F
+    single_hop = z3.Or(ht == 1, z3.And(ht == 5, hst == 0))
+    mid_at = lambda off: z3.And(*[pkt.bs[off + i] == LOCAL_MID[i] for i in range(6)]) if L >= off + 6 else FALSE
+    own = z3.And(pkt.bs[0] == 0x11, z3.If(single_hop, mid_at(14), mid_at(18)))
+
+    def replay_own(vals):
+        from unittest import mock
+        from flexstack.utils.time_service import TimeService, ITS_EPOCH, ELAPSED_SECONDS
+        f = vals["frame"]
+        outs = []
+        for base in (int.from_bytes(f[20:24], "big") if len(f) >= 24 else 0, int.from_bytes(f[24:28], "big") if len(f) >= 28 else 0):
+            R, ll, got, patches = build_real(h, vals, scripted_table=False)
+            before = sorted(repr(a) for a in R.location_table.loc_t)
+            now_s = ITS_EPOCH - ELAPSED_SECONDS + (base + 200 + 4 * 2 ** 32) / 1000.0
+            with patches, mock.patch.object(TimeService, "time", staticmethod(lambda: now_s)):
+                try:
+                    R.gn_data_indicate(f)
+                except Exception as e:          # noqa
+                    pass
+            outs.append((sorted(repr(a) for a in R.location_table.loc_t) != before, bool(got), bool(ll.sent)))
+        return any(any(o) for o in outs), f"frame {f.hex()} carrying the station's own address as source: location table changed={any(o[0] for o in outs)}, delivered={any(o[1] for o in outs)}, sent={any(o[2] for o in outs)}"
+    ctx.prove(f"L{L}-own-frames-are-ignored-without-trace", I, z3.And(own, z3.Or(any_touch, h.any_indication(), h.any_send())), vars=vars_, replay=replay_own,
+              desc="a frame whose source GN address is the station's own updates no location-table entry, is not delivered and triggers no transmission")
     by_class = {}
     for c, k in raised:
         by_class.setdefault(k, []).append(c)
@@ -331,9 +355,9 @@ class ScriptedSource:
         return None
 
 
-def _loop_vc(ctx, which):
+def _loop_vc(ctx, which, n1=20):
     I = make("bv", 128, unroll=4)
-    n1, n2 = 20, 24
+    n2 = 24
     f1, f2 = G.sym_bytes("a", n1), G.sym_bytes("b", n2)
     calls = []
     fail = [z3.Bool(f"cb_raises_{k.__name__}") for k in EXC_MENU]
@@ -488,6 +512,12 @@ def _loop_vc(ctx, which):
 @vc("C04", "R2-raw-loop")
 def raw_loop(ctx):
     _loop_vc(ctx, "raw")
+
+
+@vc("C04", "R2-cv2x-loop-empty-frame")
+def cv2x_loop_empty(ctx):
+    """a frame that consists of the radio prefix only reaches the loop as an empty byte string: it is a (bad) frame, not the stop signal"""
+    _loop_vc(ctx, "cv2x", n1=0)
 
 
 @vc("C04", "R2-cv2x-loop")
